@@ -105,12 +105,18 @@ func pruneEmpty(dst, src proto.Message, mask fmutils.NestedMask) {
 		if !ok {
 			return true
 		}
+		isMessage := d.Kind() == protoreflect.MessageKind && d.Cardinality() != protoreflect.Repeated
 		if !srcPr.Has(d) {
-			dstPr.Clear(d)
+			if isMessage && len(fieldMask) > 0 {
+				// the mask only mentions fields inside this message: clear those, the rest of the message stays
+				fieldMask.Prune(v.Message().Interface())
+			} else {
+				dstPr.Clear(d)
+			}
 			return true
 		}
-		if d.Kind() == protoreflect.MessageKind && d.Cardinality() != protoreflect.Repeated {
-			pruneEmpty(dstPr.Get(d).Message().Interface(), srcPr.Get(d).Message().Interface(), fieldMask)
+		if isMessage {
+			pruneEmpty(v.Message().Interface(), srcPr.Get(d).Message().Interface(), fieldMask)
 		}
 		return true
 	})
